@@ -15,7 +15,7 @@ def sh(cmd, cwd, timeout=1800):
 
 def main():
     args = [a for a in sys.argv[1:] if not a.startswith("--")]
-    out, wt = args[0].rstrip("/"), args[1]
+    out, wt = os.path.abspath(args[0].rstrip("/")), args[1]
     props = args[2:] or ["C%02d" % i for i in range(1, 19)]
     confirm = "--no-confirm" not in sys.argv
     name = os.path.basename(out)
@@ -73,7 +73,8 @@ def main():
     dst = os.path.join("/verif/refactors", name)
     os.makedirs(dst, exist_ok=True)
     for f in ("patch.diff", "demo.rs"):
-        shutil.copy(os.path.join(out, f), os.path.join(dst, f))
+        if os.path.abspath(os.path.join(out, f)) != os.path.abspath(os.path.join(dst, f)):
+            shutil.copy(os.path.join(out, f), os.path.join(dst, f))
     old = {}
     if os.path.exists(os.path.join(dst, "meta.json")):
         old = json.load(open(os.path.join(dst, "meta.json")))
@@ -85,8 +86,9 @@ def main():
     v.update(verdicts)
     meta["checks"] = v
     json.dump(meta, open(os.path.join(dst, "meta.json"), "w"), indent=1)
-    alarms = [p for p, x in v.items() if x["rc"] != 0]
-    print("SILENT" if not alarms else "ALARMS %s" % alarms, name)
+    alarms = [p for p, x in verdicts.items() if x["rc"] != 0]
+    stale = [p for p, x in v.items() if x["rc"] != 0 and p not in verdicts]
+    print("SILENT" if not alarms else "ALARMS %s" % alarms, name, ("(not re-run, alarmed before: %s)" % stale) if stale else "")
     return 0
 
 if __name__ == "__main__":
